@@ -60,6 +60,8 @@ def setup(ctx):
 def generate(rng, tier, i):
     aspect = rng.choice([1, 1, 2, 4, 10, 25])
     base = rng.choice([1.0, 10.0, 100.0, 1000.0, 2.5, 0.1])
+    if rng.random() < 0.08:
+        base = rng.choice([1e8, 1e9, 3e9, 1e-4])       # dies in database units (nanometres) or in metres
     W, H = (base * aspect, base) if rng.random() < 0.5 else (base, base * aspect)
     m = min(W, H)
     nmov = rng.randint(4, 9)
@@ -78,15 +80,23 @@ def generate(rng, tier, i):
         else:
             # hard module: one or two abutting rectangles with that total area (roughly)
             s = math.sqrt(area)
-            s = float(f"{s:.5g}")
-            cx, cy = round(rng.uniform(s, W + s), 3), round(rng.uniform(s, H + s), 3)
             # abutting rectangles are derived from already-rounded values (rounding each number separately would open
-            # gaps / overlaps of 1e-8 relative, which at coordinates of 1e4 exceeds the reader's area tolerance)
-            h1, h2 = float(f"{s * 0.6:.5g}"), float(f"{s * 0.2:.5g}")
-            if rng.random() < 0.5:
-                rects = [[cx, cy, s, float(f"{s * 0.8:.5g}")]]
+            # gaps / overlaps of 1e-8 relative, which at coordinates of 1e4 exceeds the reader's area tolerance); in database
+            # units (dies of 1e8 and more) every number is a multiple of 4, so that all sums and halves are exact
+            if m >= 1e6:
+                def q(v):
+                    return float(max(4, round(v / 4) * 4))
+                cx, cy = float(round(rng.uniform(s, W + s))), float(round(rng.uniform(s, H + s)))
             else:
-                rects = [[cx, cy, s, h1], [cx, cy + h1 / 2 + h2 / 2, float(f"{s * 0.5:.5g}"), h2]]
+                def q(v):
+                    return float(f"{v:.5g}")
+                cx, cy = round(rng.uniform(s, W + s), 3), round(rng.uniform(s, H + s), 3)
+            s = q(s)
+            h1, h2 = q(s * 0.6), q(s * 0.2)
+            if rng.random() < 0.5:
+                rects = [[cx, cy, s, q(s * 0.8)]]
+            else:
+                rects = [[cx, cy, s, h1], [cx, cy + h1 / 2 + h2 / 2, q(s * 0.5), h2]]
             mods[f"H{k}"] = {"hard": True, "rectangles": rects}
     for k in range(nfix):
         w, h = rng.uniform(0.05, 0.2) * W, rng.uniform(0.05, 0.2) * H
@@ -127,9 +137,14 @@ def generate(rng, tier, i):
             "n": n, "pyseed": rng.randrange(1 << 30), "query_first": rng.random() < 0.3}
 
 
+# found after widening the die sizes (round-11 seeds): the orthogonality sanity assertion measured a unit-dependent residual and
+# tripped on rounding noise for dies of about 1e-4 units (repaired in /repo)
+DIRECTED_SMALL_UNITS = {'again': None, 'cls': 'directed_small_units', 'W': 0.0002, 'H': 0.0001, 'netlist': {'Modules': {'S0': {'area': 1.64368e-09}, 'S4': {'area': 9.894e-10}, 'F1': {'fixed': True, 'rectangles': [[0.000138582, 3.48203e-05, 2.0788e-05, 6.93214e-06]]}, 'S3': {'area': 1.00005e-10, 'center': [0.0, 0.0]}, 'S2': {'area': 7.68967e-09}, 'F0': {'fixed': True, 'rectangles': [[9.01894e-05, 5.04326e-05, 2.0485e-05, 1.32968e-05]]}, 'S1': {'area': 1.24406e-10}}, 'Nets': [['S0', 'S3'], ['S3', 'S4', 10], ['S4', 'F1'], ['F1', 'F0', 3.3], ['F0', 'S1', 100], ['S1', 'S2', 10], ['S4', 'S3', 10], ['S0', 'F1'], ['S0', 'S2', 2], ['S3', 'S4', 'S2', 10]]}, 'n': 1, 'pyseed': 981699554, 'query_first': True}
+
+
 def directed():
     # found by the thorough tier: the orthogonality sanity assertion tripped on rounding noise (repaired in /repo)
-    return [{'cls': 'fixed0', 'W': 1000.0, 'H': 1000.0, 'netlist': {'Modules': {'S2': {'area': 15997.2}, 'H1': {'hard': True, 'rectangles': [[323.917, 1153.211, 278.7, 167.22], [323.917, 1264.6909999999998, 139.35, 55.74]]}, 'S0': {'area': 282461.0}, 'S3': {'area': 282461.0}}, 'Nets': [['S0', 'S3', 100], ['S3', 'S2', 0.5], ['S2', 'H1', 100]]}, 'n': 5, 'pyseed': 377064497}, {'cls': 'fixed1', 'W': 25000.0, 'H': 1000.0, 'netlist': {'Modules': {'F1': {'fixed': True, 'rectangles': [[13875.5, 521.043, 4942.32, 81.8807]]}, 'S2': {'area': 51359.5, 'center': [24021.968, 944.237]}, 'F0': {'fixed': True, 'rectangles': [[22830.4, 94.7716, 2646.51, 180.784]]}, 'H1': {'hard': True, 'rectangles': [[20962.409, 1155.36, 531.47, 425.18]]}, 'H3': {'hard': True, 'rectangles': [[11957.106, 1003.374, 531.47, 318.88], [11957.106, 1215.959, 265.74, 106.29]]}, 'S0': {'area': 75325.0}}, 'Nets': [['F1', 'S0'], ['S0', 'F0', 100], ['F0', 'H3', 3.3], ['H3', 'S2', 100], ['S2', 'H1'], ['H3', 'F1', 'F0', 2], ['S2', 'H3', 'F0', 'F1', 1], ['F1', 'H3', 1], ['S2', 'F0'], ['S2', 'S0']]}, 'n': 5, 'pyseed': 355387198}, {'cls': 'fixed0', 'W': 62.5, 'H': 2.5, 'netlist': {'Modules': {'S1': {'area': 0.277866}, 'H0': {'hard': True, 'rectangles': [[52.047, 2.56, 0.47553, 0.38042]]}, 'S2': {'area': 0.0203532, 'center': [11.739, 0.501]}, 'S3': {'area': 0.755739}}, 'Nets': [['S2', 'H0'], ['H0', 'S3', 0.1], ['S3', 'S1', 10]]}, 'n': 1, 'pyseed': 120647745}]
+    return [DIRECTED_SMALL_UNITS, {'cls': 'fixed0', 'W': 1000.0, 'H': 1000.0, 'netlist': {'Modules': {'S2': {'area': 15997.2}, 'H1': {'hard': True, 'rectangles': [[323.917, 1153.211, 278.7, 167.22], [323.917, 1264.6909999999998, 139.35, 55.74]]}, 'S0': {'area': 282461.0}, 'S3': {'area': 282461.0}}, 'Nets': [['S0', 'S3', 100], ['S3', 'S2', 0.5], ['S2', 'H1', 100]]}, 'n': 5, 'pyseed': 377064497}, {'cls': 'fixed1', 'W': 25000.0, 'H': 1000.0, 'netlist': {'Modules': {'F1': {'fixed': True, 'rectangles': [[13875.5, 521.043, 4942.32, 81.8807]]}, 'S2': {'area': 51359.5, 'center': [24021.968, 944.237]}, 'F0': {'fixed': True, 'rectangles': [[22830.4, 94.7716, 2646.51, 180.784]]}, 'H1': {'hard': True, 'rectangles': [[20962.409, 1155.36, 531.47, 425.18]]}, 'H3': {'hard': True, 'rectangles': [[11957.106, 1003.374, 531.47, 318.88], [11957.106, 1215.959, 265.74, 106.29]]}, 'S0': {'area': 75325.0}}, 'Nets': [['F1', 'S0'], ['S0', 'F0', 100], ['F0', 'H3', 3.3], ['H3', 'S2', 100], ['S2', 'H1'], ['H3', 'F1', 'F0', 2], ['S2', 'H3', 'F0', 'F1', 1], ['F1', 'H3', 1], ['S2', 'F0'], ['S2', 'S0']]}, 'n': 5, 'pyseed': 355387198}, {'cls': 'fixed0', 'W': 62.5, 'H': 2.5, 'netlist': {'Modules': {'S1': {'area': 0.277866}, 'H0': {'hard': True, 'rectangles': [[52.047, 2.56, 0.47553, 0.38042]]}, 'S2': {'area': 0.0203532, 'center': [11.739, 0.501]}, 'S3': {'area': 0.755739}}, 'Nets': [['S2', 'H0'], ['H0', 'S3', 0.1], ['S3', 'S1', 10]]}, 'n': 1, 'pyseed': 120647745}]
 
 
 def centroid(rects):
